@@ -119,8 +119,9 @@ class Harness:
             self.log.append((arr, arr.copy()))
         return arr
 
-    def snap(self, label, getter):
-        self.snaps.append((label, getter, np.array(getter(), copy=True)))
+    def snap(self, label, getter, setter=None):
+        """Keep a private copy of ``getter()``; ``setter(copy)`` (optional) puts it back when the live object is not an array."""
+        self.snaps.append((label, getter, np.array(getter(), copy=True), setter))
 
     @staticmethod
     def _same(a, b):
@@ -134,7 +135,7 @@ class Harness:
         for arr, cp in self.log:
             if not self._same(arr, cp):
                 bad.append(("returned-array", arr, cp))
-        for label, getter, cp in self.snaps:
+        for label, getter, cp, _ in self.snaps:
             cur = np.asarray(getter())
             if not self._same(cur, cp):
                 bad.append((label, cur, cp))
@@ -145,10 +146,13 @@ class Harness:
 
     def restore(self):
         """Put the persistent operand arrays back so that later evaluations are judged on their own."""
-        for _, getter, snap in self.snaps:
+        for _, getter, snap, setter in self.snaps:
             arr = np.asarray(getter())
             if arr.shape == snap.shape and not self._same(arr, snap):
-                arr[...] = snap
+                if setter is not None:
+                    setter(snap)
+                else:
+                    arr[...] = snap
 
 
 class LeafCallable:
@@ -174,6 +178,45 @@ def _dtype(h):
     return int if h.symbolic else float
 
 
+def _dense(a):
+    return a.toarray() if hasattr(a, "toarray") else np.asarray(a)
+
+
+def snap_linear(h, fn):
+    """Snapshot the coefficient arrays of a (dense or sparse) MDOLinearFunction."""
+
+    def put_back(snap, fn=fn):
+        cur = fn.coefficients
+        if hasattr(cur, "toarray"):
+            fn.coefficients = type(cur)(snap)
+        else:
+            cur[...] = snap
+
+    h.snap("MDOLinearFunction.coefficients", lambda fn=fn: _dense(fn.coefficients), put_back)
+    h.snap("MDOLinearFunction.value_at_zero", lambda fn=fn: fn.value_at_zero)
+
+
+def jac_kind(fn, x):
+    """Storage class of the Jacobian returned by a gemseo function ('' for a plain ndarray)."""
+    try:
+        J = fn.jac(np.array(x, dtype=float))
+    except Exception:
+        return ""
+    if hasattr(J, "toarray") or isinstance(J, np.matrix):
+        # a SciPy sparse container, or the numpy.matrix that SciPy returns when a sparse matrix meets a dense array
+        return "sparse-jacobian"
+    return ""
+
+
+KEPT_CLAUSES = ("operand-modified-in-place", "input-modified-in-place", "second-normalization-differs")
+
+
+def sparse_sig(site):
+    """Signature builder for a site fed a sparse Jacobian: numpy-only code meeting a sparse container is one mechanism
+    per site (whatever the clause, the exception type or the dimensions); state corruption keeps its own clause."""
+    return lambda c: f"C10:{site}:{c}:sparse-jacobian" if c in KEPT_CLAUSES else f"C10:{site}:sparse-jacobian"
+
+
 def make_leaf(node, h, name="f"):
     from gemseo.core.mdo_functions.mdo_function import MDOFunction
     from gemseo.core.mdo_functions.mdo_linear_function import MDOLinearFunction
@@ -181,9 +224,13 @@ def make_leaf(node, h, name="f"):
 
     f = ref.leaf_operand(node)
     if f.kind == "linear":
-        fn = MDOLinearFunction(np.array(f.A, dtype=_dtype(h)), name, value_at_zero=np.array(f.b, dtype=_dtype(h)))
-        h.snap("MDOLinearFunction.coefficients", lambda fn=fn: fn.coefficients)
-        h.snap("MDOLinearFunction.value_at_zero", lambda fn=fn: fn.value_at_zero)
+        A = np.array(f.A, dtype=_dtype(h))
+        if node["fmt"].startswith("sparse:"):
+            import scipy.sparse as sps
+
+            A = getattr(sps, node["fmt"].split(":")[1])(A)
+        fn = MDOLinearFunction(A, name, value_at_zero=np.array(f.b, dtype=_dtype(h)))
+        snap_linear(h, fn)
         return fn
     if f.kind == "quadratic":
         fn = MDOQuadraticFunction(np.array(f.Q, dtype=_dtype(h)), name, linear_coeffs=np.array(f.l, dtype=_dtype(h)),
@@ -362,6 +409,8 @@ def product_mimic(node, fa, fb):
         if clause != "jacobian" or node["op"] not in "*/" or _second_kind(node) != "function":
             return None
         ja, jb = fa.jac(x.copy()), fb.jac(x.copy())
+        if not (type(ja) is np.ndarray and type(jb) is np.ndarray):
+            return None  # sparse / numpy.matrix Jacobians: another mechanism, keep the generic signature
         va, vb = fa.func(x.copy()), fb.func(x.copy())
         try:
             if node["op"] == "*":
@@ -425,17 +474,24 @@ def build(node, h, rep, pts, case, judge_nodes=True, path="r"):
     clean = a.clean and (b is None or b.clean)
     if a.obj is None or (b is not None and b.obj is None):
         return Built(None, False)
+    if not h.symbolic:
+        kinds = sorted({k for k in [jac_kind(a.obj, pts[0])] + ([jac_kind(b.obj, pts[0])] if b is not None and b.is_func else [])
+                        if k})
+        sparse_node = bool(kinds)
+        if kinds:
+            rep.count("operator_nodes_with_sparse_operand_jacobian")
+        h.forget()
     if type(fn).__name__ == "MDOLinearFunction":
         # a linear function created by gemseo (negation, offset): its internal arrays are operand state of the
         # functions built above it
-        h.snap("MDOLinearFunction.coefficients", lambda fn=fn: fn.coefficients)
-        h.snap("MDOLinearFunction.value_at_zero", lambda fn=fn: fn.value_at_zero)
+        snap_linear(h, fn)
     if not clean:
         rep.count("nodes_not_judged_above_a_failing_node")
         return Built(fn, False)
     if judge_nodes:
         mim = product_mimic(node, a.obj, b.obj) if (b is not None and b.is_func and op in "*/") else None
-        clean = judge_node(rep, fn, node, pts, h, case, lambda clause: f"C10:{where}:{clause}:{feat}", mim, op)
+        sig = sparse_sig(where) if (not h.symbolic and sparse_node) else (lambda clause: f"C10:{where}:{clause}:{feat}")
+        clean = judge_node(rep, fn, node, pts, h, case, sig, mim, op)
     return Built(fn, clean)
 
 
@@ -501,6 +557,57 @@ def operand_for(tree, pts_op, rep, case, h=None, path="r"):
     return b.obj, h
 
 
+class OperandState:
+    """Observable state of the operands of a helper: coefficient arrays and value/Jacobian at two probe points.
+
+    Taken before the helper is built, compared after it is built and again after its result has been evaluated
+    (an in-place edit can happen lazily, at the first evaluation of the result).
+    """
+
+    def __init__(self, fns, probes):
+        self.fns = list(fns)
+        self.probes = [np.array(p, dtype=float) for p in probes[:2]]
+        self.ref = self._observe()
+
+    def _observe(self):
+        out = []
+        for fn in self.fns:
+            st = {}
+            for attr in ("coefficients", "value_at_zero", "quad_coeffs", "linear_coeffs"):
+                if hasattr(fn, attr):
+                    st[attr] = np.array(_dense(getattr(fn, attr)), copy=True)
+            for k, p in enumerate(self.probes):
+                st[f"evaluate(probe{k})"] = np.array(fn.evaluate(p.copy()), copy=True)
+                st[f"jac(probe{k})"] = np.array(_dense(fn.jac(p.copy())), copy=True)
+            out.append(st)
+        return out
+
+    def compare(self, rep, case, sig, stage, harness=None):
+        rep.count(f"operand_snapshots_compared_{stage}")
+        try:
+            now = self._observe()
+        except Exception as e:
+            rep.violation(sig("operand-modified-in-place"), f"operands still evaluate {stage.replace('_', ' ')}", case,
+                          observed=f"{type(e).__name__}: {e}", expected="the operand evaluates as before")
+            return False
+        if harness is not None:
+            harness.forget()
+        for i, (a, b) in enumerate(zip(self.ref, now)):
+            for key in a:
+                x, y = a[key], b[key]
+                if x.shape != y.shape or not np.allclose(x, y, rtol=1e-12, atol=1e-14):
+                    rep.violation(sig("operand-modified-in-place"), f"operands' values unchanged ({key} of operand {i}, {stage.replace('_', ' ')})",
+                                  case, observed=y, expected=x,
+                                  msg=f"{key} of the operand differs {stage.replace('_', ' ')}")
+                    return False
+        return True
+
+
+def helper_sig(cls, fn, probe):
+    """Signature builder of a helper; the storage class of the operand's Jacobian is part of the mechanism."""
+    return sparse_sig(cls) if jac_kind(fn, probe) else (lambda c: f"C10:{cls}:{c}")
+
+
 def _sub(val, cols):
     return ref.Val(val.v, val.J[:, cols], val.mv, val.mJ[:, cols])
 
@@ -544,6 +651,8 @@ def run_restriction(case, rep):
     h.snap("frozen values", lambda: va)
     cls = {"restriction": "FunctionRestriction", "linear_restrict": "MDOLinearFunction.restrict",
            "restricted_function": "RestrictedFunction"}[which]
+    sig = helper_sig(cls, fn, full[0])
+    state = OperandState([fn], full)
     try:
         if which == "restriction":
             r = FunctionRestriction(ia, va, n, fn, name="r")
@@ -552,8 +661,10 @@ def run_restriction(case, rep):
         else:
             r = RestrictedFunction(fn, ia, va)
     except Exception as e:
-        rep.violation(f"C10:{cls}:construction-exception:{type(e).__name__}", "the helper builds a function", case,
+        rep.violation(sig(f"construction-exception:{type(e).__name__}"), "the helper builds a function", case,
                       observed=f"{type(e).__name__}: {e}")
+        return
+    if not state.compare(rep, case, sig, "after_helper", h):
         return
 
     def ref_fn(x):
@@ -567,7 +678,7 @@ def run_restriction(case, rep):
             try:
                 xm = np.insert(x, ia, va)  # what numpy.insert builds: positions relative to the *restricted* vector
             except IndexError:
-                return known_multi if isinstance(exc, IndexError) and len(idx) > 1 else None
+                return known_multi if clause == "value" and type(exc) is IndexError and len(idx) > 1 else None
             xf, _ = ref.full_point(x, idx, vals, n)
             multi = not np.array_equal(xm, xf)
             if clause == "value":
@@ -575,6 +686,8 @@ def run_restriction(case, rep):
                     return "C10:RestrictedFunction:value:numpy-insert-positions:several-restricted-indices"
                 return None
             raw = fn.jac(xm.copy())
+            if type(raw) is not np.ndarray:
+                return None  # sparse / numpy.matrix Jacobian: another mechanism
             try:
                 wrong = np.delete(raw, ia, axis=0)
             except Exception as e2:
@@ -588,7 +701,8 @@ def run_restriction(case, rep):
                     return "C10:RestrictedFunction:jacobian:rows-deleted-instead-of-columns:2-D-jacobian"
             return None
 
-    judge(rep, r, pts, ref_fn, counter=which, case=case, sig=lambda c: f"C10:{cls}:{c}", harness=h, mimic=mimic)
+    if judge(rep, r, pts, ref_fn, counter=which, case=case, sig=sig, harness=h, mimic=mimic):
+        state.compare(rep, case, sig, "after_evaluating_result", h)
 
 
 # =========================================================================== linear composition
@@ -614,11 +728,15 @@ def run_linear_composition(case, rep):
     if fn is None:
         return
     h.snap("matrix", lambda: M)
+    sig = helper_sig("LinearCompositeFunction", fn, M @ pts[0])
+    state = OperandState([fn], [M @ p for p in pts])
     try:
         r = LinearCompositeFunction(fn, M)
     except Exception as e:
-        rep.violation(f"C10:LinearCompositeFunction:construction-exception:{type(e).__name__}", "builds", case,
+        rep.violation(sig(f"construction-exception:{type(e).__name__}"), "builds", case,
                       observed=f"{type(e).__name__}: {e}")
+        return
+    if not state.compare(rep, case, sig, "after_helper", h):
         return
 
     def ref_fn(x):
@@ -640,8 +758,8 @@ def run_linear_composition(case, rep):
             return s
         return None
 
-    judge(rep, r, pts, ref_fn, counter="linear_composition", case=case, sig=lambda c: f"C10:LinearCompositeFunction:{c}",
-          harness=h, mimic=mimic)
+    if judge(rep, r, pts, ref_fn, counter="linear_composition", case=case, sig=sig, harness=h, mimic=mimic):
+        state.compare(rep, case, sig, "after_evaluating_result", h)
 
 
 # =========================================================================== concatenation
@@ -668,11 +786,15 @@ def run_concatenation(case, rep):
         if fn is None:
             return
         fns.append(fn)
+    sig = sparse_sig("Concatenate") if any(jac_kind(f, pts[0]) for f in fns) else (lambda c: f"C10:Concatenate:{c}")
+    state = OperandState(fns, pts)
     try:
         r = Concatenate(fns, "c")
     except Exception as e:
-        rep.violation(f"C10:Concatenate:construction-exception:{type(e).__name__}", "builds", case,
+        rep.violation(sig(f"construction-exception:{type(e).__name__}"), "builds", case,
                       observed=f"{type(e).__name__}: {e}")
+        return
+    if not state.compare(rep, case, sig, "after_helper", h):
         return
 
     def ref_fn(x):
@@ -680,7 +802,8 @@ def run_concatenation(case, rep):
         return ref.Val(np.concatenate([v.v for v in vs]), np.vstack([v.J for v in vs]),
                        np.concatenate([v.mv for v in vs]), np.vstack([v.mJ for v in vs]))
 
-    judge(rep, r, pts, ref_fn, counter="concatenation", case=case, sig=lambda c: f"C10:Concatenate:{c}", harness=h)
+    if judge(rep, r, pts, ref_fn, counter="concatenation", case=case, sig=sig, harness=h):
+        state.compare(rep, case, sig, "after_evaluating_result", h)
 
 
 # =========================================================================== normalisation of a linear function
@@ -699,7 +822,7 @@ def gen_normalize(rng):
         variables.append({"name": f"v{i}", "size": size, "lb": lb, "ub": ub})
         n += size
     m = int(rng.integers(1, 4))
-    tree = go.random_leaf(rng, n, m, kinds=["linear"])
+    tree = go.random_leaf(rng, n, m, kinds=["linear"], p_sparse=0.5)
     pts = []
     for _ in range(3):
         u = []
@@ -733,11 +856,18 @@ def run_normalize(case, rep):
         s = var["size"]
         ds.add_variable(var["name"], s, lower_bound=lb[o:o + s].copy(), upper_bound=ub[o:o + s].copy())
         o += s
+    sparse = tree["fmt"].startswith("sparse:")
+    if sparse:
+        rep.count("normalize_cases_sparse_coefficients")
+    sig = helper_sig("MDOLinearFunction.normalize", fn, phys[0])
+    state = OperandState([fn], phys)
     try:
         r = fn.normalize(ds)
     except Exception as e:
-        rep.violation(f"C10:MDOLinearFunction.normalize:construction-exception:{type(e).__name__}", "builds", case,
+        rep.violation(sig(f"construction-exception:{type(e).__name__}"), "builds", case,
                       observed=f"{type(e).__name__}: {e}")
+        return
+    if not state.compare(rep, case, sig, "after_helper", h):
         return
     if not r.expects_normalized_inputs:
         rep.observe("normalize: result does not declare normalized inputs", None)
@@ -747,8 +877,26 @@ def run_normalize(case, rep):
         v = ref.evaluate(tree, x)
         return ref.Val(v.v, v.J * fac[None, :], v.mv, v.mJ * np.abs(fac)[None, :])
 
-    ok = judge(rep, r, pts, ref_fn, counter="normalize", case=case, sig=lambda c: f"C10:MDOLinearFunction.normalize:{c}",
-               harness=h)
+    ok = judge(rep, r, pts, ref_fn, counter="normalize", case=case, sig=sig, harness=h)
+    if ok:
+        ok = state.compare(rep, case, sig, "after_evaluating_result", h)
+    if ok:
+        # normalising the same operand a second time must give the same function (the operand is not consumed)
+        rep.count("normalize_idempotence_checked")
+        try:
+            r2 = fn.normalize(ds)
+            same = (np.allclose(_dense(r2.coefficients), _dense(r.coefficients), rtol=1e-13, atol=0)
+                    and np.allclose(r2.value_at_zero, r.value_at_zero, rtol=1e-13, atol=1e-15)
+                    and all(np.allclose(r2.evaluate(u.copy()), r.evaluate(u.copy()), rtol=1e-13, atol=1e-15) for u in pts))
+            detail = {"coefficients": _dense(r2.coefficients), "value_at_zero": r2.value_at_zero}
+        except Exception as e:
+            same, detail = False, f"{type(e).__name__}: {e}"
+        if not same:
+            rep.violation(sig("second-normalization-differs"), "normalising twice gives the same function", case, observed=detail,
+                          expected={"coefficients": _dense(r.coefficients), "value_at_zero": r.value_at_zero})
+            ok = False
+        elif not state.compare(rep, case, sig, "after_second_normalization", h):
+            ok = False
     if ok:
         for u, x in zip(pts, phys):
             xs = ds.unnormalize_vect(u.copy(), no_check=True)
@@ -794,13 +942,18 @@ def run_taylor(case, rep):
         return
     h.forget()
     H = np.array(case["hessian"]) if order == 2 else None
+    sig = helper_sig(name, fn, x0)
+    state = OperandState([fn], pts)
+    h.forget()
     try:
         r = compute_linear_approximation(fn, x0.copy()) if order == 1 else compute_quadratic_approximation(fn, x0.copy(), H)
     except Exception as e:
-        rep.violation(f"C10:{name}:construction-exception:{type(e).__name__}", "builds", case,
+        rep.violation(sig(f"construction-exception:{type(e).__name__}"), "builds", case,
                       observed=f"{type(e).__name__}: {e}")
         return
-    if not check_untouched(rep, h, case, lambda c: f"C10:{name}:{c}"):
+    if not check_untouched(rep, h, case, sig):
+        return
+    if not state.compare(rep, case, sig, "after_helper", h):
         return
     v0 = ref.evaluate(tree, x0)
 
@@ -818,8 +971,9 @@ def run_taylor(case, rep):
             mJ = mJ + (np.abs(H) @ ad)[None, :]
         return ref.Val(v, J, mv, mJ)
 
-    ok = judge(rep, r, pts, ref_fn, counter=case["helper"], case=case, sig=lambda c: f"C10:{name}:{c}", harness=h)
+    ok = judge(rep, r, pts, ref_fn, counter=case["helper"], case=case, sig=sig, harness=h)
     if ok:
+        state.compare(rep, case, sig, "after_evaluating_result", h)
         rep.count("taylor_value_and_gradient_coincide_at_expansion_point")  # pts[0] is x0: ref_fn(x0) == (f(x0), J(x0))
 
 
@@ -872,11 +1026,16 @@ def run_convex_linear(case, rep):
     if np.any((np.abs(v0.J[:, mk]) > 0) & (np.abs(v0.J[:, mk]) < 1e-6)):
         rep.count("convex_linear_skipped_derivative_near_sign_threshold")
         return
+    sig = helper_sig("ConvexLinearApprox", fn, x0)
+    state = OperandState([fn], [x0, merged[-1]])
+    h.forget()
     try:
         r = ConvexLinearApprox(x0.copy(), fn, None if case["mask"] is None else mk.copy())
     except Exception as e:
-        rep.violation(f"C10:ConvexLinearApprox:construction-exception:{type(e).__name__}", "builds", case,
+        rep.violation(sig(f"construction-exception:{type(e).__name__}"), "builds", case,
                       observed=f"{type(e).__name__}: {e}")
+        return
+    if not state.compare(rep, case, sig, "after_helper", h):
         return
     h.forget()
     has_negative = bool(np.any(v0.J[:, mk] < -thr))
@@ -900,7 +1059,7 @@ def run_convex_linear(case, rep):
             try:
                 obs = r.evaluate(x.copy()) if clause == "value" else r.jac(x.copy())
             except Exception as e:
-                rep.violation(f"C10:ConvexLinearApprox:{clause}:exception:{type(e).__name__}", clause, dict(case, point=x.tolist()),
+                rep.violation(sig(f"{clause}:exception:{type(e).__name__}"), clause, dict(case, point=x.tolist()),
                               observed=f"{type(e).__name__}: {e}")
                 return
             rep.count(f"convex_linear_{clause}_oracle_evaluations")
@@ -926,12 +1085,13 @@ def run_convex_linear(case, rep):
                     reported = True
                 matched = "step"
                 continue
-            s = f"C10:ConvexLinearApprox:{clause}" + (":not-derivative-of-evaluated-value" if matched == "step" else "")
+            s = sig(clause + (":not-derivative-of-evaluated-value" if matched == "step" else ""))
             rep.violation(s, f"{clause}: {bad[1]}", dict(case, point=x.tolist()), observed=obs,
                           expected=exp[matched].v if clause == "value" else exp[matched].J, msg=bad[1])
             return
         if not check_untouched(rep, h, case, lambda c: f"C10:ConvexLinearApprox:{c}", x):
             return
+    state.compare(rep, case, sig, "after_evaluating_result", h)
     if has_negative:
         rep.count("convex_linear_cases_with_negative_derivatives")
 
@@ -1022,13 +1182,18 @@ def run_aggregation(case, rep):
         kw["scale"] = np.array(scale) if isinstance(scale, list) else scale
         if isinstance(scale, list):
             h.snap("scale array", lambda: kw["scale"])
+    # numpy-only code fed a sparse Jacobian is one mechanism whatever the aggregation method
+    sig = sparse_sig("aggregation") if jac_kind(fn, pts[0]) else (lambda c: f"C10:aggregation:{method}:{c}")
+    state = OperandState([fn], pts)
+    h.forget()
     try:
         agg = getattr(af, AGG[method])(fn, **kw)
     except Exception as e:
-        rep.violation(f"C10:aggregation:{method}:construction-exception:{type(e).__name__}", "builds", case,
+        rep.violation(sig(f"construction-exception:{type(e).__name__}"), "builds", case,
                       observed=f"{type(e).__name__}: {e}")
         return
-    sig = lambda c: f"C10:aggregation:{method}:{c}"  # noqa: E731
+    if not state.compare(rep, case, sig, "after_helper", h):
+        return
     sub = list(range(m)) if idx is None else list(idx)
     svec = np.broadcast_to(np.asarray(scale, dtype=float), (len(sub),))
     inplace_reported = False
@@ -1150,11 +1315,14 @@ def run_aggregation(case, rep):
                 except ValueError:
                     if isinstance(exc, ValueError) and "broadcast" in str(exc):
                         s = KNOWN_VECSCALE
+                except TypeError:  # e.g. an object array returned for a sparse Jacobian: not this mechanism
+                    s = None
             rep.violation(s or sig("jacobian"), f"jacobian: {bad[1]}", dict(case, point=x.tolist()),
                           observed=obsJ if exc is None else bad[1], expected=expJ.J, msg=bad[1])
             untouched(x)
             return
         untouched(x)
+    state.compare(rep, case, sig, "after_evaluating_result", h)
     # self-check of the reference derivative (oracle health, not a verdict on gemseo)
     if method in ("upper_bound_KS", "lower_bound_KS", "IKS", "SUM"):
         g = ref.evaluate(tree, pts[0])
@@ -1456,6 +1624,36 @@ def directed_cases():
         out.append({"kind": "helper", "helper": which, "n": 4, "tree": g4, "frozen_idx": [1, 2], "frozen_val": [7.0, 9.0], "points": [[1.0, 2.0]]})
         out.append({"kind": "helper", "helper": which, "n": 4, "tree": g4, "frozen_idx": [0], "frozen_val": [7.0], "points": [[1.0, 2.0, 3.0]]})
         out.append({"kind": "helper", "helper": which, "n": 3, "tree": f23, "frozen_idx": [1], "frozen_val": [7.0], "points": [[1.0, 2.0]]})
+    # linear operands with SciPy sparse coefficients through every operator and helper
+    for fmt in ("csr_array", "csr_matrix", "coo_array", "csc_matrix"):
+        sp = {"op": "leaf", "f": {"kind": "linear", "A": [[2.0, 0.0, -1.0], [0.0, 3.0, 4.0]], "b": [5.0, -7.0]}, "fmt": "sparse:" + fmt}
+        sp1 = {"op": "leaf", "f": {"kind": "linear", "A": [[0.0, -2.0, 0.5]], "b": [0.5]}, "fmt": "sparse:" + fmt}
+        out.append({"kind": "helper", "helper": "normalize", "n": 3, "tree": sp, "points": [[1 / 6, 0.45, 0.75], [0.0, 1.0, 0.5]],
+                    "variables": [{"name": "x", "size": 3, "lb": [1.0, -2.0, 0.5], "ub": [4.0, 3.0, 2.5]}]})
+        out.append({"kind": "helper", "helper": "normalize", "n": 3, "tree": sp1, "points": [[0.2, -1.0, 0.75], [1.0, 2.0, 0.0]],
+                    "variables": [{"name": "x", "size": 1, "lb": [1.0], "ub": [4.0]}, {"name": "y", "size": 2, "lb": [None, 0.5], "ub": [3.0, 2.5]}]})
+        for a, b in ((sp, f23), (f23, sp), (sp, sp), (sp, s3), (s3, sp), (sp1, f23), (sp1, s3), (sp, {"op": "num", "v": 2.5}),
+                     (sp, {"op": "arr", "v": [2.0, -3.0]}), (sp1, {"op": "arr", "v": [2.0]})):
+            for op in "*/+-":
+                tree = {"op": op, "a": a, "b": b}
+                ref.sanitize_denominators(tree, [np.array(q) for q in x3])
+                out.append({"kind": "tree", "n": 3, "tree": tree, "points": x3, "symbolic": False})
+        # a sum with a dense Jacobian turns a sparse-matrix Jacobian into a numpy.matrix: multiply it again
+        out.append({"kind": "tree", "n": 3, "tree": {"op": "*", "a": {"op": "+", "a": sp, "b": f23}, "b": g23}, "points": x3, "symbolic": False})
+        for a in (sp, sp1):
+            out.append({"kind": "tree", "n": 3, "tree": {"op": "neg", "a": a}, "points": x3, "symbolic": False})
+            out.append({"kind": "tree", "n": 3, "tree": {"op": "offset", "a": a, "v": [1.5] * go.out_dim(a)}, "points": x3, "symbolic": False})
+        out.append({"kind": "helper", "helper": "concatenation", "n": 3, "trees": [sp, f23, sp1], "points": x3})
+        for which in ("restriction", "linear_restrict", "restricted_function"):
+            out.append({"kind": "helper", "helper": which, "n": 3, "tree": sp, "frozen_idx": [1], "frozen_val": [7.0], "points": [[1.0, 2.0], [-1.0, 0.5]]})
+        out.append({"kind": "helper", "helper": "linear_composition", "n": 3, "tree": sp, "matrix": [[1.0, 2.0], [0.0, 1.0], [3.0, -1.0]], "points": x2})
+        out.append({"kind": "helper", "helper": "taylor_linear", "n": 3, "tree": sp, "x0": x3[0], "points": x3})
+        out.append({"kind": "helper", "helper": "convex_linear", "n": 3, "tree": sp, "x0": [1.0, 1.0, -2.0], "mask": None,
+                    "points": [[1.0, 1.0, -2.0], [2.0, 0.5, -1.0]]})
+        for method in AGG:
+            for opts in ({}, {"scale": 2.0, "indices": [1]}, {"scale": [2.0, 3.0]}):
+                out.append({"kind": "helper", "helper": "aggregation", "method": method, "n": 3, "tree": sp, "options": opts,
+                            "points": [[0.3, -0.2, 0.5], [0.0, 0.4, -1.0]]})
     half_norm2 = _poly_leaf([[0.5, 0.5, 0.5], [-0.5, -0.5, -0.5]], [[2, 0, 0], [0, 2, 0], [0, 0, 2]], "vec")
     out.append({"kind": "helper", "helper": "convex_linear", "n": 3, "tree": half_norm2, "x0": [1.0, 1.0, -2.0], "mask": [False, True, True],
                 "points": [[1.0, 1.0, -2.0], [2.0, 2.0, -1.0], [0.5, 3.0, -4.0]]})
@@ -1484,20 +1682,6 @@ def directed_observations(rep):
                         f"{np.shape(J)} (array operands larger than the output are outside the judged programs)", None)
     except Exception as e:
         rep.observe("scalar-valued function + longer array raises", str(e))
-    try:
-        from scipy.sparse import csr_array
-
-        ls = MDOLinearFunction(csr_array(A), "ls", value_at_zero=np.array([1.0, 2.0]))
-        for nm, fn in (("sparse-linear * function", ls * v), ("function * sparse-linear", v * ls), ("sparse-linear * array", ls * np.array([2.0, 3.0]))):
-            try:
-                J = fn.jac(x)
-                J = J.toarray() if hasattr(J, "toarray") else np.asarray(J)
-                ok = J.dtype != object and J.shape == (2, 3)
-                rep.observe(f"{nm}: Jacobian {'returned with the right shape' if ok else 'has a wrong type/shape'} (sparse not judged)", None)
-            except Exception as e:
-                rep.observe(f"{nm}: Jacobian raises {type(e).__name__} (sparse Jacobians are not judged)", str(e))
-    except ImportError:
-        pass
     try:
         d = ConstraintAggregation(["c1", "c2"], "upper_bound_KS")
         out = d.execute({"c1": np.array([0.5, 1.0]), "c2": np.array([2.0, 3.0])})
@@ -1631,6 +1815,9 @@ _QUICK_MIN = {
     "ks_bounds_checked": 950, "iks_bound_checked": 470,
     "discipline_value_oracle_evaluations": 1450, "discipline_jacobian_oracle_evaluations": 1200,
     "reference_derivative_selfchecks": 300,
+    "normalize_cases_sparse_coefficients": 80, "normalize_idempotence_checked": 160,
+    "operand_snapshots_compared_after_helper": 2100, "operand_snapshots_compared_after_evaluating_result": 2000,
+    "operator_nodes_with_sparse_operand_jacobian": 1600,
 }
 MIN_COUNTERS["quick"] = dict(_QUICK_MIN)
 MIN_COUNTERS["thorough"] = {
